@@ -108,12 +108,11 @@ def run_demo(demo, scratch, patch):
             shutil.rmtree(d, ignore_errors=True)
             return rc, o[-700:]
         # package test: find target directory from README ("copy to <dir>") or default to repo root
-        m = re.search(r"(?:copy|copied|place|put)[^\n]*?\s(?:to|in|into|under)\s+`?([\w./-]+)`?", readme, flags=re.I)
-        target = m.group(1).strip("`'\". ") if m else "."
-        target = target.replace("<repo root>", ".").lstrip("/")
-        tdir = os.path.join(scratch, target)
-        if not os.path.isdir(tdir):
-            tdir = scratch
+        tdir = scratch
+        for cand in re.findall(r"((?:internal|cmd|ast|native|builtin)(?:/[\w]+)*)", readme):
+            if os.path.isdir(os.path.join(scratch, cand)):
+                tdir = os.path.join(scratch, cand)
+                break
         copied = []
         for f in files:
             shutil.copy(os.path.join(demo, f), os.path.join(tdir, f))
